@@ -135,12 +135,16 @@ def _run(ctx, thorough):
         raise vlib.ToolError("vacuity: no behaviour cuts back to offset 0x3FFF and pushes again "
                              "(%d by a failed push, %d by a rewind)" % (by_push, by_rewind))
 
-    # ---- 2c. the header, start_answer / start_error / request_axfr, OPT
+    # ---- 2c. the header, start_answer / start_error / request_axfr; OPT
     #          records that set an extended RCODE
     c_reply = os.path.join(w, "cases-reply.ndjson")
     mc4 = ctx.tlc("MC_MsgBuilder", "MC_MsgBuilder_reply" + sfx, workers=8, label="mc-reply", coverage=False,
                   cases_to=c_reply, timeout=3000)
     ctx.require_ok(mc4, "MC_MsgBuilder reply")
+    c_optrc = os.path.join(w, "cases-optrc.ndjson")
+    mc5 = ctx.tlc("MC_MsgBuilder", "MC_MsgBuilder_optrc" + sfx, workers=8, label="mc-optrc", coverage=False,
+                  cases_to=c_optrc, timeout=3000)
+    ctx.require_ok(mc5, "MC_MsgBuilder optrc")
     devrun2 = ctx.tlc("MC_MsgBuilder", "MC_MsgBuilder_dev_optrc", workers=4, label="mc-deviation-optrc",
                       coverage=False, expect_violation="HeaderKept", count=False)
     ctx.require_ok(devrun2, "deviation D_opt_rcode_sticks must break HeaderKept in the model")
@@ -151,21 +155,21 @@ def _run(ctx, thorough):
     gdev = ctx.tlc("MC_MsgBuilder", "Gen_MsgBuilder_bigdev" + sfx, workers=8, label="gen-big-dev", coverage=False,
                    cases_to=c_bigdev, count=False, timeout=3000)
     ctx.require_ok(gdev, "Gen_MsgBuilder big with deviation")
-    c_replydev = os.path.join(w, "cases-reply-dev.ndjson")
-    gdev2 = ctx.tlc("MC_MsgBuilder", "Gen_MsgBuilder_replydev" + sfx, workers=8, label="gen-reply-dev",
-                    coverage=False, cases_to=c_replydev, count=False, timeout=3000)
-    ctx.require_ok(gdev2, "Gen_MsgBuilder reply with deviation")
+    c_optrcdev = os.path.join(w, "cases-optrc-dev.ndjson")
+    gdev2 = ctx.tlc("MC_MsgBuilder", "Gen_MsgBuilder_optrcdev" + sfx, workers=8, label="gen-optrc-dev",
+                    coverage=False, cases_to=c_optrcdev, count=False, timeout=3000)
+    ctx.require_ok(gdev2, "Gen_MsgBuilder optrc with deviation")
     c_all = os.path.join(w, "cases-all.ndjson")
     n_all = 0
     with open(c_all, "w") as out:
-        for src in (c_small, c_sim, c_edge):
+        for src in (c_small, c_sim, c_edge, c_reply):
             with open(src) as f:
                 for line in f:
                     out.write(line)
                     n_all += 1
         n, n_dev = _merge_dev(c_big, c_bigdev, DEV, out)
         n_all += n
-        n, n_dev_rc = _merge_dev(c_reply, c_replydev, DEV_RC, out)
+        n, n_dev_rc = _merge_dev(c_optrc, c_optrcdev, DEV_RC, out)
         n_all += n
     if n_all < 5000:
         raise vlib.ToolError("generator produced too few behaviours (%d)" % n_all)
@@ -173,7 +177,7 @@ def _run(ctx, thorough):
         raise vlib.ToolError("no behaviour distinguishes a deviation (%d, %d)" % (n_dev, n_dev_rc))
     # action coverage, counted from the behaviours TLC generated
     counts = {}
-    for src in (c_small, c_big, c_sim, c_edge, c_reply):
+    for src in (c_small, c_big, c_sim, c_edge, c_reply, c_optrc):
         _count_actions(ctx, src, counts)
     for a in sorted(set(PUSHES.values()) | set(OTHERS.values())):
         ok, tot, err = counts.get(a, (0, 0, 0))
@@ -182,7 +186,7 @@ def _run(ctx, thorough):
                                  % (a, ok, err))
         ctx.coverage_actions[a] = (ok, tot)
     ctx.stage("behaviours", {"small": mc1.ncases, "big": mc2.ncases, "simulated": sim.ncases,
-                             "edge": mc3.ncases, "reply": mc4.ncases,
+                             "edge": mc3.ncases, "reply": mc4.ncases, "optrc": mc5.ncases,
                              "edge_cut_to_0x3FFF_by_failed_push": by_push,
                              "edge_cut_to_0x3FFF_by_rewind": by_rewind,
                              "differ_under_" + DEV: n_dev, "differ_under_" + DEV_RC: n_dev_rc})
@@ -213,6 +217,7 @@ def _run(ctx, thorough):
             ok, res, rej = ctx.validate_trace("Trace_MsgBuilder", "Trace_MsgBuilder", tr,
                                               label="trace-%s-%d" % (mode, i), timeout=2400)
             ctx.traces += 1
+            used_cfg = "Trace_MsgBuilder"
             if not ok and dev_cfg:
                 # today's code: the run must then be a behaviour of the
                 # specification with the open deviations switched on
@@ -221,6 +226,7 @@ def _run(ctx, thorough):
                 if ok2:
                     ctx.known(_dev_of(tr, rej, devs_open), rej)
                     ok = True
+                    used_cfg = dev_cfg
                 else:
                     rej = rej2
             if not ok:
@@ -240,7 +246,7 @@ def _run(ctx, thorough):
                         done = True
                         break
                 open(bad, "w").write("\n".join(lines) + "\n")
-                ok3, _, _ = ctx.validate_trace("Trace_MsgBuilder", "Trace_MsgBuilder", bad,
+                ok3, _, _ = ctx.validate_trace("Trace_MsgBuilder", used_cfg, bad,
                                                label="trace-selftest")
                 ctx.selftest("corrupted trace is rejected by Trace_MsgBuilder", done and not ok3)
     ctx.assume("names: a.ex. / A.EX. / b.a.ex. / ex. / root / one 255-octet name in the model; generated names (shared suffixes, case variants, odd octets, 63-octet labels, a 255-octet name) in recorded runs")
